@@ -45,6 +45,9 @@ Static rules (DESIGN.md §C06, engine sa/tabchain.py):
  key-domain-stale  in a loop over atoms, a variable advanced only inside a once-per-key block (`if key not in D:`:
               running array, running total, per-key temporary) is not read elsewhere in the loop body; a per-atom offset
               must be read back from a table indexed by the key
+ atom-order   in grids_indexer.py / gen_cider_grid.py every loop over atom indices that appends blocks is a top-level
+              `for ia in range(natm)`; atom indices regrouped by a key and replayed group by group are reported
+ mole-rebuild a pyscf Mole constructed from <mol>.atom (keyword or attribute style) also receives <mol>.unit
  translation  In every function of conv_interpolation.c / fast_sdmx.c that receives both grid coordinates and
               atom coordinates, each read of a coordinate is an operand of a subtraction whose other
               operand is the same Cartesian component of the other kind (or of the same kind), or a pure
@@ -866,16 +869,114 @@ def _norm_defs(tu, fname):
     return out
 
 
+def _vec_base(text):
+    return text.split("[")[0]
+
+
+def _helper_summaries(tu):
+    """same-file helpers: norm helpers  {name: index of the pointer parameter whose norm is returned}
+                         normalise helpers {name: (vector param index, norm param index, guarded)}"""
+    norm_h, normalise_h = {}, {}
+    for fname in tu.funcs:
+        body = tu.body(fname)
+        if body is None:
+            continue
+        ps = tu.params(fname)
+        pid = {p.get("id"): i for i, p in enumerate(ps)}
+        pname = {p.get("name"): i for i, p in enumerate(ps)}
+        nodes = list(tc.walk_stmts(body))
+        # returns sqrt(sum of squares of P[i])
+        for n in nodes:
+            if n.get("kind") == "ReturnStmt" and cfacts.kids(n):
+                fake = {"kind": "VarDecl", "id": "<ret>", "name": "<ret>", "inner": [cfacts.kids(n)[0]]}
+                v = cfacts.strip(cfacts.kids(n)[0])
+                if v.get("kind") == "DeclRefExpr":
+                    nd = _norm_defs(tu, fname).get(v["referencedDecl"]["id"])
+                else:
+                    tmp = _norm_of_expr(tu, v)
+                    nd = ("<ret>", tmp) if tmp else None
+                if nd:
+                    bases = {_vec_base(o) for o in nd[1]}
+                    if len(bases) == 1 and next(iter(bases)) in pname:
+                        norm_h[fname] = pname[next(iter(bases))]
+        # divides V[k] by scalar parameter N
+        parents = {}
+        for x in nodes:
+            for c in cfacts.kids(x):
+                parents[id(c)] = x
+        for x in nodes:
+            if x.get("kind") == "CompoundAssignOperator" and x.get("opcode") == "/=":
+                num, den = cfacts.kids(x)
+                dn, nm = cfacts.strip(den), cfacts.strip(num)
+                if dn.get("kind") == "DeclRefExpr" and dn["referencedDecl"]["id"] in pid and nm.get("kind") == "ArraySubscriptExpr":
+                    b = cfacts.strip(cfacts.kids(nm)[0])
+                    if b.get("kind") == "DeclRefExpr" and b["referencedDecl"]["id"] in pid:
+                        did = dn["referencedDecl"]["id"]
+                        g = _dominated(x, did, parents)
+                        prev = normalise_h.get(fname)
+                        normalise_h[fname] = (pid[b["referencedDecl"]["id"]], pid[did], g and (prev[2] if prev else True))
+    return norm_h, normalise_h
+
+
+def _norm_of_expr(tu, v):
+    """operand spellings if v is sqrt(a*a + b*b [+ ...])"""
+    v = cfacts.strip(v)
+    if v.get("kind") != "CallExpr":
+        return None
+    callee = cfacts.strip(cfacts.kids(v)[0])
+    if callee.get("referencedDecl", {}).get("name") != "sqrt" or len(cfacts.kids(v)) != 2:
+        return None
+    terms, todo = [], [cfacts.strip(cfacts.kids(v)[1])]
+    while todo:
+        x = cfacts.strip(todo.pop())
+        if x.get("kind") == "BinaryOperator" and x.get("opcode") == "+":
+            todo.extend(cfacts.kids(x))
+        else:
+            terms.append(x)
+    ops = set()
+    for t_ in terms:
+        if t_.get("kind") == "BinaryOperator" and t_.get("opcode") == "*":
+            a, b = [tc.norm_c(tu.text_of(cfacts.strip(c))) for c in cfacts.kids(t_)]
+            if a == b:
+                ops.add(a)
+                continue
+        return None
+    return ops if len(terms) >= 2 and len(ops) == len(terms) else None
+
+
+def _dominated(x, did, parents):
+    """is node x executed only after a test on variable `did` (enclosing if / ?: on it, or an earlier
+    `if (... did ...) continue/return/break` in an enclosing block)"""
+    cur = x
+    while id(cur) in parents:
+        par = parents[id(cur)]
+        if par.get("kind") in ("IfStmt", "ConditionalOperator") and _refs(cfacts.kids(par)[0], did) \
+                and cur is not cfacts.kids(par)[0]:
+            return True
+        if par.get("kind") == "CompoundStmt":
+            for sib in cfacts.kids(par):
+                if sib is cur:
+                    break
+                if sib.get("kind") == "IfStmt" and _refs(cfacts.kids(sib)[0], did) and any(
+                        y.get("kind") in ("ContinueStmt", "ReturnStmt", "BreakStmt")
+                        for y in tc.walk_stmts(cfacts.kids(sib)[1])):
+                    return True
+        cur = par
+    return False
+
+
 def rule_unit_vector(chk, tus, files=(C_INTERP, C_SDMX)):
     """`v[k] /= n` (or v[k] / n) with n = sqrt(v[0]^2 + v[1]^2 + v[2]^2): when the grid point coincides with the
     centre the division is 0/0 = NaN, although r^l Y_lm (or a radial function finite at 0) has a limit there.  The
     division must be dominated by a test on n -- unless the function is singular at n = 0 anyway (n also occurs in
-    another denominator: derivative variants), or is not reachable from python."""
+    another denominator: derivative variants), or is not reachable from python.  Same-file helpers are followed:
+    `n = norm_helper(v, ...)` defines the norm of v, `normalise_helper(v, n)` is a normalisation site that is guarded
+    iff the helper's own division is.  One obligation per (function, vector)."""
     entry = python_entry_points(chk.tree)
     n_sites = 0
     for rel in files:
         tu = tus[rel]
-        # reachability: exported functions named from python, and what they call in this file
+        norm_h, normalise_h = _helper_summaries(tu)
         reach = set()
         for f in tu.funcs:
             if f in entry:
@@ -883,17 +984,35 @@ def rule_unit_vector(chk, tus, files=(C_INTERP, C_SDMX)):
                 reach |= {nm for nm, _, _ in tc.callees_of(tu, f, 3)}
         for fname in sorted(tu.funcs):
             body = tu.body(fname)
-            if body is None:
+            if body is None or fname in normalise_h:
                 continue
-            norms = _norm_defs(tu, fname)
-            if not norms:
-                continue
-            parents = {}
             nodes = list(tc.walk_stmts(body))
+            parents = {}
             for x in nodes:
                 for c in cfacts.kids(x):
                     parents[id(c)] = x
-            for did, (nname, ops) in norms.items():
+            # norms: direct sqrt(sum of squares) or returned by a norm helper
+            norms = {did: (nm, {_vec_base(o) for o in ops}, ops) for did, (nm, ops) in _norm_defs(tu, fname).items()}
+            for x in nodes:
+                tgt = val = None
+                if x.get("kind") == "BinaryOperator" and x.get("opcode") == "=":
+                    l, r = cfacts.kids(x)
+                    l = cfacts.strip(l)
+                    if l.get("kind") == "DeclRefExpr":
+                        tgt, val = l["referencedDecl"], cfacts.strip(r)
+                elif x.get("kind") == "VarDecl":
+                    ks = [c for c in cfacts.kids(x) if c.get("kind") != "FullComment"]
+                    if ks:
+                        tgt, val = {"id": x.get("id"), "name": x.get("name")}, cfacts.strip(ks[0])
+                if tgt is not None and val.get("kind") == "CallExpr":
+                    cal = cfacts.strip(cfacts.kids(val)[0]).get("referencedDecl", {}).get("name")
+                    if cal in norm_h and len(cfacts.kids(val)) > 1 + norm_h[cal]:
+                        vec = tc.norm_c(tu.text_of(cfacts.strip(cfacts.kids(val)[1 + norm_h[cal]])))
+                        norms[tgt["id"]] = (tgt.get("name"), {_vec_base(vec)}, {vec + "[*]"})
+            for did, (nname, bases, ops) in sorted(norms.items(), key=lambda kv: str(kv[1][0])):
+                if len(bases) != 1:
+                    continue
+                vec = next(iter(bases))
                 sites, other_denoms = [], []
                 for x in nodes:
                     den = num = None
@@ -901,52 +1020,43 @@ def rule_unit_vector(chk, tus, files=(C_INTERP, C_SDMX)):
                         num, den = cfacts.kids(x)
                     elif x.get("kind") == "BinaryOperator" and x.get("opcode") == "/":
                         num, den = cfacts.kids(x)
-                    if den is None or not _refs(den, did):
-                        continue
-                    dn = cfacts.strip(den)
-                    plain = dn.get("kind") == "DeclRefExpr"
-                    if plain and tc.norm_c(tu.text_of(cfacts.strip(num))) in ops:
-                        sites.append(x)
-                    else:
-                        other_denoms.append(x)
+                    if den is not None and _refs(den, did):
+                        plain = cfacts.strip(den).get("kind") == "DeclRefExpr"
+                        if plain and _vec_base(tc.norm_c(tu.text_of(cfacts.strip(num)))) == vec and \
+                                cfacts.strip(num).get("kind") == "ArraySubscriptExpr":
+                            sites.append((x, _dominated(x, did, parents)))
+                        else:
+                            other_denoms.append(x)
+                    if x.get("kind") == "CallExpr":
+                        cal = cfacts.strip(cfacts.kids(x)[0]).get("referencedDecl", {}).get("name")
+                        if cal in normalise_h:
+                            vi, ni, hg = normalise_h[cal]
+                            args = cfacts.kids(x)[1:]
+                            if len(args) > max(vi, ni) and _refs(args[ni], did) and \
+                                    _vec_base(tc.norm_c(tu.text_of(cfacts.strip(args[vi])))) == vec:
+                                sites.append((x, hg or _dominated(x, did, parents)))
                 if not sites:
                     continue
-                for x in sites:
-                    n_sites += 1
-                    txt = " ".join(tu.text_of(x).split())
-                    inst = "%s:%s %s" % (rel, fname, txt)
-                    # dominated by a test on n?
-                    guarded, cur = False, x
-                    while id(cur) in parents:
-                        par = parents[id(cur)]
-                        if par.get("kind") in ("IfStmt", "ConditionalOperator") and _refs(cfacts.kids(par)[0], did) \
-                                and cur is not cfacts.kids(par)[0]:
-                            guarded = True
-                        if par.get("kind") == "CompoundStmt":
-                            for sib in cfacts.kids(par):
-                                if sib is cur:
-                                    break
-                                if sib.get("kind") == "IfStmt" and _refs(cfacts.kids(sib)[0], did) and any(
-                                        y.get("kind") in ("ContinueStmt", "ReturnStmt", "BreakStmt")
-                                        for y in tc.walk_stmts(cfacts.kids(sib)[1])):
-                                    guarded = True
-                        cur = par
-                    if guarded:
-                        chk.ok("unit-vector", inst + " [guarded]")
-                    elif other_denoms:
-                        chk.ok("unit-vector", inst + " [function singular at %s = 0: also %s]" % (
-                            nname, " ".join(tu.text_of(other_denoms[0]).split())[:40]), nontrivial=False)
-                    elif fname not in reach:
-                        chk.ok("unit-vector", inst + " [not reachable from python]", nontrivial=False)
-                        if x is sites[0]:
-                            chk.note("unit-vector", "%s:%s" % (rel, fname), "unguarded normalisation in a function no python code reaches")
-                    else:
-                        chk.violation("unit-vector", F[rel], fname, txt, tu.line_of(x),
-                                      "%s is the Euclidean norm of this vector (sqrt of the sum of squares of %s); for a grid point "
-                                      "on the centre it is 0 and the division gives NaN, although nothing else in %s is singular "
-                                      "there (the harmonics are multiplied by r^l / radial functions finite at 0).  Test %s before "
-                                      "dividing and use any unit vector when it is 0" % (nname, ", ".join(sorted(ops)), fname, nname),
-                                      instance=inst)
+                n_sites += 1
+                first = sites[0][0]
+                txt = " ".join(tu.text_of(first).split())
+                inst = "%s:%s %s normalised by %s" % (rel, fname, vec, nname)
+                unguarded = [x for x, g in sites if not g]
+                if not unguarded:
+                    chk.ok("unit-vector", inst + " [guarded, %d site(s)]" % len(sites))
+                elif other_denoms:
+                    chk.ok("unit-vector", inst + " [function singular at %s = 0: also %s]" % (
+                        nname, " ".join(tu.text_of(other_denoms[0]).split())[:40]), nontrivial=False)
+                elif fname not in reach:
+                    chk.ok("unit-vector", inst + " [not reachable from python]", nontrivial=False)
+                    chk.note("unit-vector", "%s:%s" % (rel, fname), "unguarded normalisation in a function no python code reaches")
+                else:
+                    x = unguarded[0]
+                    chk.violation("unit-vector", F[rel], fname, " ".join(tu.text_of(x).split()), tu.line_of(x),
+                                  "%s is the Euclidean norm of %s; for a grid point on the centre it is 0 and the division gives "
+                                  "NaN (%d unguarded site(s)), although nothing else in %s is singular there (the harmonics are "
+                                  "multiplied by r^l / radial functions finite at 0).  Test %s before dividing and use any unit "
+                                  "vector when it is 0" % (nname, vec, len(unguarded), fname, nname), instance=inst)
     chk.count("vector normalisations", n_sites)
 
 
@@ -1292,6 +1402,142 @@ def rule_setup_invariance(chk):
 
 
 # ----------------------------------------------------------------------------------------------
+# mole-rebuild: a Mole made from mol.atom keeps the unit mol.atom is written in
+# ----------------------------------------------------------------------------------------------
+MOLE_GLOBS = ["ciderpress/pyscf/*.py", "ciderpress/dft/lcao_*.py"]
+BOHR = {"bohr", "b", "au", "a.u."}
+
+
+def rule_mole_rebuild(chk):
+    """`mol.atom` is the geometry as the user typed it, in `mol.unit`.  A second Mole built from it (gto.M(atom=mol.atom,
+    ...), or Mole(); x.atom = mol.atom; x.build()) re-parses those numbers: unless unit=mol.unit is forwarded too, a
+    geometry given in Bohr is read as Angstrom and every position handed on is scaled by 1.89."""
+    n = 0
+    for g in MOLE_GLOBS:
+        for rel in chk.tree.glob(g):
+            if "/tests/" in rel:
+                continue
+            mod = chk.tree.py(rel)
+            for fn in [f for f in ast.walk(mod) if isinstance(f, (ast.FunctionDef, ast.AsyncFunctionDef))]:
+                q = pf.qualname(fn)
+                # (a) constructor with atom=<X>.atom
+                for call in pf.walk_no_nested(fn):
+                    if not isinstance(call, ast.Call):
+                        continue
+                    kw = {k.arg: k.value for k in call.keywords if k.arg}
+                    a = kw.get("atom")
+                    if a is None or not (isinstance(a, ast.Attribute) and a.attr in ("atom", "_atom")):
+                        continue
+                    n += 1
+                    src = pf.src(a.value)
+                    inst = "%s:%s %s(atom=%s, ...)" % (rel, q, pf.src(call.func), pf.src(a))
+                    u = kw.get("unit")
+                    good = u is not None and ((a.attr == "atom" and pf.src(u) == src + ".unit") or
+                                              (a.attr == "_atom" and isinstance(u, ast.Constant) and str(u.value).lower() in BOHR))
+                    if good:
+                        chk.ok("mole-rebuild", inst)
+                    else:
+                        chk.violation("mole-rebuild", rel, q, pf.src(call)[:140], call.lineno,
+                                      "a Mole is built from %s but unit=%s is not passed (%s): the coordinates are re-read in the "
+                                      "default unit (Angstrom)" % (pf.src(a), src + ".unit" if a.attr == "atom" else "'Bohr'",
+                                                                   "unit=%s" % pf.src(u) if u is not None else "no unit keyword"),
+                                      instance=inst)
+                # (b) attribute style: new.atom = <X>.atom
+                for st in pf.walk_no_nested(fn):
+                    if isinstance(st, ast.Assign) and len(st.targets) == 1 and isinstance(st.targets[0], ast.Attribute) \
+                            and st.targets[0].attr == "atom" and isinstance(st.value, ast.Attribute) and st.value.attr == "atom":
+                        n += 1
+                        new, old_ = pf.src(st.targets[0].value), pf.src(st.value.value)
+                        inst = "%s:%s %s.atom = %s.atom" % (rel, q, new, old_)
+                        ok_ = any(isinstance(x, ast.Assign) and len(x.targets) == 1 and pf.src(x.targets[0]) == new + ".unit"
+                                  and pf.src(x.value) == old_ + ".unit" for x in pf.walk_no_nested(fn))
+                        if ok_:
+                            chk.ok("mole-rebuild", inst)
+                        else:
+                            chk.violation("mole-rebuild", rel, q, pf.src(st), st.lineno,
+                                          "%s takes the geometry text of %s but not its unit (%s.unit = %s.unit is missing): the "
+                                          "coordinates are re-read in the default unit (Angstrom)" % (new, old_, new, old_),
+                                          instance=inst)
+    if n == 0:
+        chk.ok("mole-rebuild", "no Mole is rebuilt from another Mole's atom specification", nontrivial=False)
+    chk.count("Mole reconstructions", n)
+
+
+# ----------------------------------------------------------------------------------------------
+# atom-order: per-atom blocks are concatenated in atom order
+# ----------------------------------------------------------------------------------------------
+def _is_natm_range(it):
+    return isinstance(it, ast.Call) and pf.call_name(it) == "range" and len(it.args) == 1 and (
+        (isinstance(it.args[0], ast.Attribute) and it.args[0].attr == "natm") or
+        (isinstance(it.args[0], ast.Name) and it.args[0].id == "natm"))
+
+
+def rule_atom_order(chk):
+    """AtomicGridsIndexer.from_tabs and its siblings in the key-domain files build flat arrays by appending one block per
+    atom; the consumers (grid coordinates, ar_loc/ra_loc look-ups) assume block i belongs to atom i.  Every statement
+    that appends inside a loop over atom indices must therefore run in a `for ia in range(natm)` loop that is not nested
+    in another loop; a loop over atom indices regrouped by some key (for key, atoms in groups.items(): for ia in atoms)
+    appends in first-appearance order of the keys."""
+    n = 0
+    for rel in KEY_FILES:
+        mod = chk.tree.py(rel)
+        for fn in [f for f in ast.walk(mod) if isinstance(f, ast.FunctionDef)]:
+            loops = [x for x in pf.walk_no_nested(fn) if isinstance(x, ast.For)]
+            atom_vars = {x.target.id for x in loops if _is_natm_range(x.iter) and isinstance(x.target, ast.Name)}
+            if not atom_vars:
+                continue
+            # containers that collect atom indices: D.setdefault(k, []).append(ia) / D[k].append(ia) / L.append(ia)
+            idx_lists = set()
+            for c in pf.walk_no_nested(fn):
+                if isinstance(c, ast.Call) and isinstance(c.func, ast.Attribute) and c.func.attr == "append" and len(c.args) == 1 \
+                        and isinstance(c.args[0], ast.Name) and c.args[0].id in atom_vars:
+                    b = pf.base_name(c.func.value)
+                    if b is None and isinstance(c.func.value, ast.Call):
+                        b = pf.base_name(c.func.value.func)
+                    if b:
+                        idx_lists.add(b)
+            regrouped = {}  # loop node -> text
+            for x in loops:
+                it = x.iter
+                # for k, atoms in D.items() / for atoms in D.values(): names bound to lists of atom indices
+                if isinstance(it, ast.Call) and isinstance(it.func, ast.Attribute) and it.func.attr in ("items", "values") \
+                        and pf.base_name(it.func.value) in idx_lists:
+                    tgt = x.target.elts[-1] if isinstance(x.target, ast.Tuple) else x.target
+                    if isinstance(tgt, ast.Name):
+                        regrouped[tgt.id] = x
+            sec_loops = [x for x in loops if (isinstance(x.iter, ast.Name) and (x.iter.id in regrouped or x.iter.id in idx_lists))
+                         or (isinstance(x.iter, ast.Subscript) and pf.base_name(x.iter) in idx_lists)]
+            for x in loops:
+                is_atom = _is_natm_range(x.iter) or x in sec_loops
+                if not is_atom:
+                    continue
+                appends = [c for c in ast.walk(x) if (isinstance(c, ast.Call) and isinstance(c.func, ast.Attribute)
+                                                      and c.func.attr in ("append", "extend") and pf.base_name(c.func.value) not in idx_lists
+                                                      and not (isinstance(c.func.value, ast.Call)))
+                           or (isinstance(c, ast.Call) and (pf.call_name(c) or "").endswith("np.append"))]
+                if not appends:
+                    continue
+                n += 1
+                q = pf.qualname(fn)
+                inst = "%s:%s blocks appended in `for %s in %s`" % (rel, q, pf.src(x.target), pf.src(x.iter)[:40])
+                outer = pf.enclosing(x, (ast.For, ast.While))
+                while outer is not None and pf.enclosing_func(outer) is not fn:
+                    outer = None
+                if _is_natm_range(x.iter) and outer is None:
+                    chk.ok("atom-order", inst)
+                else:
+                    chk.violation("atom-order", rel, q, "for %s in %s" % (pf.src(x.target), pf.src(x.iter)[:60]), x.lineno,
+                                  "per-atom blocks are appended while iterating %s%s, i.e. grouped by key in first-appearance "
+                                  "order, not in atom order 0..natm-1: the flat arrays (radial locations, atom-of-radial-shell "
+                                  "maps) no longer line up with the atom-ordered grids for molecules like H-O-H" % (
+                                      pf.src(x.iter)[:40], " inside `for %s in %s`" % (pf.src(outer.target), pf.src(outer.iter)[:40])
+                                      if outer is not None else ""), instance=inst)
+    chk.count("per-atom accumulation loops", n)
+    if n == 0:
+        raise core.AnalysisError("no per-atom accumulation loop found in %s" % KEY_FILES)
+
+
+# ----------------------------------------------------------------------------------------------
 # key-domain: per-atom tables are written and read with the same kind of key
 # ----------------------------------------------------------------------------------------------
 KEY_FUNCS = ("atom_symbol", "atom_pure_symbol")
@@ -1313,6 +1559,29 @@ def _key_kinds(fn):
                 kinds[nm] = "<mixed>"
             elif nm not in kinds:
                 kinds[nm] = k
+    # dictionaries keyed by a classified key, and loop variables that run over their keys
+    dkind = {}
+    for n in pf.walk_no_nested(fn):
+        k = t = None
+        if isinstance(n, ast.Call) and isinstance(n.func, ast.Attribute) and n.func.attr == "setdefault" and n.args \
+                and isinstance(n.func.value, ast.Name):
+            t, k = n.func.value.id, _kind_of(n.args[0], kinds)
+        elif isinstance(n, ast.Subscript) and isinstance(n.ctx, ast.Store) and isinstance(n.value, ast.Name):
+            t, k = n.value.id, _kind_of(n.slice, kinds)
+        if t and k and k != "<mixed>":
+            dkind.setdefault(t, k)
+    for n in pf.walk_no_nested(fn):
+        if isinstance(n, ast.For):
+            it, tg = n.iter, n.target
+            d = None
+            if isinstance(it, ast.Call) and isinstance(it.func, ast.Attribute) and it.func.attr in ("items", "keys") \
+                    and isinstance(it.func.value, ast.Name):
+                d = it.func.value.id
+                tg = tg.elts[0] if (it.func.attr == "items" and isinstance(tg, ast.Tuple) and tg.elts) else tg
+            elif isinstance(it, ast.Name):
+                d = it.id
+            if d in dkind and isinstance(tg, ast.Name) and tg.id not in kinds:
+                kinds[tg.id] = dkind[d]
     return {a: b for a, b in kinds.items() if b}
 
 
@@ -1528,7 +1797,7 @@ def _analyse_own(chk):
     chk.floor("sph-bounds", 3, "2 generators x 3 configurations")
     chk.rule("unit-vector", "a vector divided by its own Euclidean norm is guarded against norm == 0 in functions that are "
                             "regular there and reachable from python")
-    chk.floor("unit-vector", 6, "4 functions x 3 components today (12)")
+    chk.floor("unit-vector", 3, "one per (function, vector): 5 today")
     chk.rule("xyz-slots", "feature slots ix+c are paired with Cartesian component c in the add_lp1_* / fill_l1_coeff_* functions")
     chk.rule("setup-invariance", "python set-up values derived from mol.atom_coords() reach scalars only through "
                                  "rotation/translation-invariant reductions of position differences")
@@ -1536,6 +1805,9 @@ def _analyse_own(chk):
                                  "elsewhere in the loop body (per-key offsets are read back from a table indexed by the key)")
     chk.rule("key-domain", "per-atom tables are filled, tested and read with keys from one key function; once-per-key "
                            "blocks read only tables of that key kind; producer and consumer agree")
+    chk.rule("atom-order", "per-atom blocks are appended in a top-level `for ia in range(natm)` loop (atom order)")
+    chk.rule("mole-rebuild", "a Mole rebuilt from <mol>.atom receives unit=<mol>.unit")
+    chk.floor("atom-order", 1, "from_tabs and gen_atomic_grids_cider (2 today)")
     chk.rule("translation", "grid and atom coordinates enter only as differences of equal components")
     tus = cfacts.load_all(chk.tree, [C_SDMX, C_INTERP, C_SPH], jobs=3)
     chk.count("C translation units", 3)
@@ -1549,6 +1821,8 @@ def _analyse_own(chk):
     chk.guard(rule_translation, tus)
     chk.guard(rule_setup_invariance)
     chk.guard(rule_key_domain)
+    chk.guard(rule_atom_order)
+    chk.guard(rule_mole_rebuild)
     chk.floor("l1-order", 9, "2 generators + dirs + reorder + 3 consumers x 5 rows = 19")
     chk.floor("sph-twin", 25, "(6+1)^2 values")
     chk.floor("sph-harmonic", 25, "(6+1)^2 = 49 values")
@@ -1658,6 +1932,9 @@ def mutants(tree):
                "    if (buf.lmax < 1) {\n        return; // nlm == 1: there is no room for the l=1 entries\n    }\n    ylm[1 * lp1 + 0]",
                "    ylm[1 * lp1 + 0]", expect="sph-bounds"),
         Mutant("compute_spline_bas_separate normalises without a guard", F[C_INTERP], fn=_unguard_spline, expect="unit-vector"),
+        Mutant("indexer appends per element instead of per atom", GI, fn=_per_element_order, expect="atom-order"),
+        Mutant("auxiliary Mole rebuilt without the unit", "ciderpress/pyscf/nldf_convolutions.py", "            unit=mol.unit,\n", "",
+               expect="mole-rebuild"),
         Mutant("SDMXylm_loop: atom y taken from z", F[C_SDMX], "gridy[g] - atom_coords[3 * ia + 1];", "gridy[g] - atom_coords[3 * ia + 2];",
                expect="translation"),
     ]
@@ -1690,6 +1967,21 @@ def _dedup_temp(text):
            "            full_ylm_loc = np.append(full_ylm_loc, ylm_loc_tab[symb] + ystart)\n")
     return text.replace(_YLM_OLD, new, 1).replace("        full_ylm = np.empty((0, nlm), dtype=np.float64)\n",
                                                   "        full_ylm = np.empty((0, nlm), dtype=np.float64)\n        ylm_done = set()\n", 1)
+
+
+def _per_element_order(text):
+    a = "        for ia in range(mol.natm):\n            symb = mol.atom_symbol(ia)\n            nrad = rad_loc_tab[symb].size - 1\n"
+    if a not in text:
+        return None
+    i = text.index(a)
+    j = text.find("        return cls(", i)
+    if j < 0:
+        return None
+    body = text[i + len(a) - len("            nrad = rad_loc_tab[symb].size - 1\n"):j]
+    new = ("        groups = {}\n        for ia in range(mol.natm):\n            groups.setdefault(mol.atom_symbol(ia), []).append(ia)\n"
+           "        for symb, atoms in groups.items():\n            for ia in atoms:\n")
+    new += "".join("    " + ln + "\n" if ln.strip() else "\n" for ln in body.split("\n")[:-1])
+    return text[:i] + new + text[j:]
 
 
 def _unguard_spline(text):
